@@ -746,6 +746,14 @@ func (x *c10) oneMutex() {
 					results[k] = r
 					order = append(order, k)
 				}
+				// ... or the whole list of another PubSub handed through a call (slices.Filter, slices.Clone, append, a re-slice)
+				e.Val.Walk(func(t *Term) bool {
+					if x.isSubsLoad(t, nil) && t.Args[0].Args[0].Key() != dst.Key() {
+						r.ok = false
+						r.why = "subscriber channels of one PubSub flow (through " + e.Val.String() + ") into another PubSub value, whose own mutex does not exclude the first one's Unsub: a publish through the copy can send on a channel the original closes"
+					}
+					return true
+				})
 				for _, ch := range chans {
 					if owner := x.chanFromSubs(ch); owner != nil && owner.Key() != dst.Key() {
 						r.ok = false
@@ -1319,6 +1327,66 @@ func (x *c10) errorTable() {
 
 // ---- withonly-filter ----------------------------------------------------------------------
 
+// withOnlyViaFilter: WithOnly written with the library's filter helper: on its single path the clone's list is
+// slices.Filter(o.subs, func(s) bool { return s == sub }) (the closure: one path, no effect, returns the comparison
+// of its parameter with the captured argument), the two configuration fields are copied, the clone is returned.
+func (x *c10) withOnlyViaFilter(fi *FuncInfo, p *Path, recv, sub *Term) bool {
+	if p.End != EndReturn || len(p.Rets) != 1 || p.Rets[0].Op != "alloc" {
+		return false
+	}
+	clone := p.Rets[0]
+	h, t, f := false, false, false
+	for i := range p.Events {
+		e := &p.Events[i]
+		if e.Kind != "store" {
+			continue
+		}
+		switch {
+		case isFieldAddr(e.Addr, x.fHook, clone) && isFieldLoad(e.Val, x.fHook, recv):
+			h = true
+		case isFieldAddr(e.Addr, x.fTime, clone) && isFieldLoad(e.Val, x.fTime, recv):
+			t = true
+		case isFieldAddr(e.Addr, x.fSubs, clone):
+			v := e.Val
+			if f || v.Op != "call" || v.Sym != "slices.Filter" || len(v.Args) != 2 || !x.isSubsLoad(v.Args[0], recv) {
+				return false
+			}
+			// the predicate
+			var mk *Event
+			for j := range p.Events {
+				if p.Events[j].Kind == "mkclosure" && p.Events[j].Val.Key() == v.Args[1].Key() {
+					mk = &p.Events[j]
+				}
+			}
+			if mk == nil {
+				return false
+			}
+			cp := x.c.An.ClosurePaths(mk)
+			if cp.Unproven != "" || len(cp.Paths) != 1 {
+				return false
+			}
+			q := cp.Paths[0]
+			if len(q.Events) != 0 || q.End != EndReturn || len(q.Rets) != 1 {
+				return false
+			}
+			r := q.Rets[0]
+			if r.Op != "bin" || r.Sym != "==" || len(r.Args) != 2 {
+				return false
+			}
+			isArg := func(a *Term) bool {
+				a = stripConv(a)
+				return a.Key() == sub.Key() || isParamOrSpill(p, a, 1)
+			}
+			a0, a1 := r.Args[0], r.Args[1]
+			if !((isParam(a0, 0) && isArg(a1)) || (isParam(a1, 0) && isArg(a0))) {
+				return false
+			}
+			f = true
+		}
+	}
+	return h && t && f
+}
+
 func (x *c10) withOnly() {
 	c := x.c
 	fi := c.fn("withonly-filter", "chans.(*PubSub).WithOnly")
@@ -1329,6 +1397,12 @@ func (x *c10) withOnly() {
 	recv, sub := paramOf(fi, 0), paramOf(fi, 1)
 	ok, why := true, ""
 	loops := findLoops(ps)
+	if len(loops) == 0 && len(ps) == 1 && x.withOnlyViaFilter(fi, ps[0], recv, sub) {
+		// the library's own slices.Filter (a fresh slice of exactly the elements that satisfy the predicate - decided by
+		// C14's rules, which the dependency closure re-runs here) with the predicate s == sub
+		c.R.Held("withonly-filter", fi.Name, "filter", c.pos(fi), "clone = slices.Filter(subs, s == sub) with the same timeout configuration")
+		return
+	}
 	if len(loops) != 1 {
 		ok, why = false, "expected one loop over the subscriber list"
 	} else {
